@@ -184,6 +184,7 @@ def run_case(spec):
     rec = Recorder(tape, "rec")
     add_destinations(rec)
     it = Interp(tape=tape)
+    it.explicit_loggers = True
     it.extractors = expect_fields
     mech = None
     late = []
